@@ -24,6 +24,7 @@ func init() {
 	rt.Register("C19_desc_fields", VerifHarness_C19_desc_fields)
 	rt.Register("C19_recovery_fields", VerifHarness_C19_recovery_fields)
 	rt.Register("C19_missing_packets", VerifHarness_C19_missing_packets)
+	rt.Register("C19_file_hash", VerifHarness_C19_file_hash)
 }
 
 const scnVol = scnDir + "/s.vol00+01.par2"
@@ -198,6 +199,10 @@ type refSet struct {
 	dropIFSC  bool
 	dropCreat bool
 	dupMain   bool
+	// declared whole-file MD5 (nil: the real one); exercises the final hash check
+	fileHash []byte
+	// recovery data computed from the file (exponents 0 and 1) instead of arbitrary bytes
+	validRecovery bool
 }
 
 // build emits an index file and one volume file for the set description, with
@@ -218,7 +223,11 @@ func (r *refSet) build() (index, volume []byte) {
 		id := md5.Sum(idIn)
 		var desc []byte
 		desc = append(desc, id[:]...)
-		desc = append(desc, h[:]...)
+		if r.fileHash != nil {
+			desc = append(desc, r.fileHash...)
+		} else {
+			desc = append(desc, h[:]...)
+		}
 		desc = append(desc, h[:]...)
 		desc = append(desc, put64(f.length)...)
 		desc = append(desc, nullPad4(f.name)...)
@@ -261,7 +270,22 @@ func (r *refSet) build() (index, volume []byte) {
 	vol := append([]refPkt(nil), common...)
 	for k, e := range r.exps {
 		body := put32(e)
-		body = append(body, rt.Bytes("recv"+string(rune('0'+k)), r.recvLen)...)
+		if r.validRecovery {
+			// block e = sum_i slice_i * c_i^e on little-endian words (single file: slices in order)
+			sl := slicesOf(r.files[0].data)
+			blk := make([]byte, scnSlice)
+			for w := 0; w < scnSlice/2; w++ {
+				var sum uint16
+				for i, s := range sl {
+					x := uint16(s[2*w]) | uint16(s[2*w+1])<<8
+					sum ^= rt.GFMul(refPowC(refConstant(i), int(e)), x)
+				}
+				blk[2*w], blk[2*w+1] = byte(sum), byte(sum>>8)
+			}
+			body = append(body, blk...)
+		} else {
+			body = append(body, rt.Bytes("recv"+string(rune('0'+k)), r.recvLen)...)
+		}
 		vol = append(vol, refPkt{"PAR 2.0\x00RecvSlic", body})
 	}
 	volume = refWrite(setID, vol, -1, 0)
@@ -324,27 +348,64 @@ func VerifHarness_C19_packet_length() {
 	robustOps(s, true)
 }
 
+// boundary values named by the property (0, 1, field+-1, 2^31, 2^62, 2^63, 2^64-1 ...)
+var (
+	bSliceSize = []uint64{0, 1, 2, 4, 8, 12, 1 << 62, 1<<63 - 4, 1 << 63, 1<<64 - 4}
+	bCount     = []uint32{0, 1, 2, 3, 1 << 31, 1<<32 - 1}
+	bLength    = []uint64{0, 1, 3, 4, 5, 6, 7, 8, 9, 12, 1 << 31, 1<<63 - 1, 1 << 63, 1<<64 - 1}
+	bExponent  = []uint32{0, 1, 2, 7, 65534, 65535, 65536, 1 << 31, 1<<32 - 1}
+)
+
 func VerifHarness_C19_main_fields() {
 	r := baseRefSet()
-	r.sliceSize = rt.U64("sliceSize")
-	r.count = rt.U32("count")
+	r.sliceSize = bSliceSize[rt.Choice("sliceSize", len(bSliceSize))]
+	r.count = bCount[rt.Choice("count", len(bCount))]
 	s := refScenario(r, !rt.Bool("dataMissing"))
 	robustOps(s, false)
 }
 
 func VerifHarness_C19_desc_fields() {
 	r := baseRefSet()
-	r.files[0].length = rt.U64("declaredLength")
+	r.files[0].length = bLength[rt.Choice("declaredLength", len(bLength))]
 	s := refScenario(r, !rt.Bool("dataMissing"))
 	robustOps(s, false)
 }
 
 func VerifHarness_C19_recovery_fields() {
 	r := baseRefSet()
-	r.exps = []uint32{rt.U32("exponent")}
+	r.exps = []uint32{bExponent[rt.Choice("exponent", len(bExponent))]}
 	r.recvLen = 4 * rt.Choice("recvWords", 3)
-	s := refScenario(r, !rt.Bool("dataMissing"))
+	state := rt.Choice("dataState", 3)
+	s := refScenario(r, state != 1)
+	if state == 2 {
+		// one slice of the data file damaged: reconstruction mixes data and recovery slices
+		d := append([]byte(nil), s.orig[0]...)
+		d[0] ^= 0xff
+		s.fs.put(s.paths[0], d)
+	}
 	robustOps(s, false)
+}
+
+// The declared whole-file hash is arbitrary (the file id does not depend on
+// it): Repair must not write data whose MD5 differs from the declared one.
+func VerifHarness_C19_file_hash() {
+	r := baseRefSet()
+	r.exps = []uint32{0, 1}
+	r.validRecovery = true
+	r.fileHash = rt.Bytes("declaredHash", 16)
+	s := refScenario(r, false)
+	w0 := len(s.fs.writes)
+	res, err := repair(s.fs, scnIndex, RepairOptions{DoubleCheck: rt.Bool("doubleCheck"), NumGoroutines: 1})
+	for _, w := range s.fs.writes[w0:] {
+		m := md5.Sum(w.data)
+		rt.Assert(bytesEqual(m[:], r.fileHash), "written data has the MD5 the archive declares for the file")
+		rt.Reach("written")
+	}
+	if err == nil {
+		rt.Assert(len(res.RepairedPaths) == len(s.fs.writes)-w0, "RepairedPaths lists exactly the files written")
+	} else {
+		rt.Reach("rejected")
+	}
 }
 
 func VerifHarness_C19_missing_packets() {
